@@ -163,3 +163,24 @@ CHECKS = [
 ]
 _PENDING = "checker not yet built in this session (see DESIGN.md section 7 build order); no claim is made"
 NOT_APPLICABLE = [{"property_id": f"C{i:02d}", "reason": _PENDING} for i in range(1, 20) if f"C{i:02d}" not in {c["id"] for c in CHECKS}]
+
+# rules added after the texts above were written (DESIGN.md 11.10 / 11.11)
+_ALSO = {
+    "C01": " Lexer state written while scanning is re-initialised by input() (R-C01.9, borrowed from R-C09.7).",
+    "C02": " Expression slots of statements take the reviewed grammar level (R-C02.5); integer / float suffixes are read over the whole suffix (R-C02.6, borrowed from R-C10.3).",
+    "C03": " Specifier conservation per builder and node class (R-C03.4); comprehensions are compared structurally in the wiring normal form.",
+    "C04": " Scope tables are written by the two registration helpers only (R-C04.1 write inventory); names are registered before the next token that can use them (R-C04.6) and never outside the braces of their own statement (R-C04.7).",
+    "C05": " The regrouping admits every block-item class (R-C05.2), searches every wrapper class (R-C05.7); context flags nest (R-C05.8).",
+    "C06": " Scanner loops terminate at end of input (R-C06.5, borrowed from R-C09.5/6); error coordinates come from nodes that have one (R-C06.4, borrowed from R-C11.6/7).",
+    "C07": " Only the reviewed statement classes end themselves (R-C07.3 own-terminator clause); statement expressions keep their parentheses (R-C07.8).",
+    "C08": " Re-reports the declarator parenthesisation rule R-C07.5 and the expression wiring R-C02.1-3.",
+    "C09": " Loop guards that the empty slice satisfies also test the bound; the identifier pattern stays inside the reference language (upper bound borrowed from C10).",
+    "C12": " No module-level mutable object flows into a tree or into parser state, dict(BASE, ...) copies included (R-C12.3).",
+    "C15": " The generator reads nothing that repr() does not print (R-C15.5, borrowed from R-C17.4).",
+    "C16": " No chain walk to the tail inside the loop that extends the chain; no rescan of a grown container (R-C16.5); polynomial ambiguity of every pattern (R-C16.1).",
+    "C17": " Layout taint flows through slice bounds (R-C17.2); grouping of expressions is C's (R-C17.6, borrowed from R-C02.3).",
+    "C18": " Rejection is by ParseError and nothing else (R-C18.7, borrowed from C06); the skipped characters are exactly C's white space (R-C18.5).",
+}
+for _c in CHECKS:
+    if _c["id"] in _ALSO:
+        _c["text"] = _c["text"].rstrip() + _ALSO[_c["id"]]
